@@ -92,7 +92,10 @@ func pemKey(k ed25519.PrivateKey) []byte {
 
 var c19Kinds = []string{"valid", "other-ca", "self-signed", "wrong-name", "expired", "not-yet-valid", "intermediate-present", "intermediate-missing", "no-certificate", "expires-during-run",
 	"impostor-ca-then-genuine-leaf", "impostor-leaf-then-genuine-leaf",
-	"expired-intermediate-present", "not-yet-valid-intermediate-present", "expired-impostor-ca-present"}
+	"expired-intermediate-present", "not-yet-valid-intermediate-present", "expired-impostor-ca-present",
+	// "+ca": the same chain with the bundle's CA certificate (public, after all) appended - more
+	// certificates on the wire must not make a server more acceptable
+	"valid+ca", "wrong-name+ca", "expired+ca", "not-yet-valid+ca", "other-ca+ca", "self-signed+ca", "intermediate-missing+ca"}
 
 type c19pki struct {
 	caCert, otherCA *x509.Certificate
@@ -106,6 +109,13 @@ type c19pki struct {
 
 // serverChain builds the certificate chain a fake server presents for one of the kinds.
 func (p *c19pki) serverChain(kind string) *tls.Certificate {
+	if base := strings.TrimSuffix(kind, "+ca"); base != kind {
+		ch := p.serverChain(base)
+		if ch != nil {
+			ch.Certificate = append(ch.Certificate, p.caDER)
+		}
+		return ch
+	}
 	leafKey := c19key(4)
 	day := 24 * time.Hour
 	spec := certSpec{cn: p.host, dns: []string{p.host}, notBefore: p.now.Add(-time.Hour), notAfter: p.now.Add(30 * day)}
@@ -175,7 +185,7 @@ func keysOfBool(m map[string]bool) []string {
 }
 
 func c19Valid(kind string, expiredNow bool) bool {
-	switch kind {
+	switch strings.TrimSuffix(kind, "+ca") {
 	case "valid", "intermediate-present":
 		return true
 	case "expires-during-run":
